@@ -20,6 +20,7 @@ var Specs = map[string]*core.Spec{
 	"C02": spec("C02", "transaction-heavy histories (0-4 predicates incl. ranges and existence tests, 0-5 ops per branch) embedded in random apply batches, plus read-only transactions via Lookup; non-trivial = a transaction applied at offset >0 of a multi-entry batch; distinct = distinct result digests", "txn-mid-batch", "txn-read-only"),
 	"C03": spec("C03", "one log, 2-4 replicas with independent batch cuts, close/reopen, crash, snapshot transfer in both formats; differential oracle (hash, results, indices) plus model; non-trivial = two replicas compared at the same prefix over a log mixing entries with and without leader index; distinct = distinct digests", "replica-pair-compared", "li-mixed-log"),
 	"C04": spec("C04", "histories with sync, restart, snapshot install and Pebble knobs; the durable view is harvested after every sync/dirsync operation (the only operations that change it) and the recovery oracle run on each image, depth <=2; non-trivial = at least one image captured strictly inside an operation (flush, install, first open); distinct = distinct digests incl. recovered indices", "image-evaluated", "image-mid-operation"),
+	"C05": spec("C05", "W1 part of C05: the leader's recovery snapshot stream (Lookup(SnapshotRequest)) with further batches applied between Write calls is the table at exactly the index it declares - W3 serialises state-machine calls and cannot place a write inside the stream; non-trivial = writes happened while the stream was produced", "snapshot-stream", "writes-during-snapshot-stream"),
 	"C07": spec("C07", "W1 half of C07: Lookup(SnapshotRequest) into a writer that applies further batches between Write calls; non-trivial = writes happened while the stream was produced", "snapshot-stream"),
 	"C08": spec("C08", "prepare/save/recover between replicas of same and different snapshot formats, writes between prepare and end of save, stop signal during save/recover, short reads, streamed reads opened before and consumed after an install, crash images during install; non-trivial = completed install with interleaved writes or cross format, or interruption inside recover", "install-complete"),
 	"C09": spec("C09", "range reads (unary and streamed) with limits placed at m-1, m, m+1 relative to the number of matching pairs, all flags, wildcard/inverted bounds, occasional near-2MiB values for size cuts; non-trivial = limit in {m-1,m,m+1} or a size-cut/multi-message stream", "limit=m-1", "limit=m", "limit=m+1"),
